@@ -83,7 +83,7 @@ func newEnv(meta minter.Meta, mc graph.M, dc any) *env.Env {
 	mg.Params = meta.BuildParams(mc)
 	dg := &dtypes.GenesisState{Params: dtypes.Params{SubDistributors: distributor.BuildCfg(meta.P, idm, dc)}}
 	return env.New(env.Options{Users: users, Minter: mg, Distributor: dg, Vesting: vestingGenesis(),
-		Balances: map[string]sdk.Coins{"payer": sdk.NewCoins(sdk.NewCoin("uc4e", sdk.NewInt(100000))), "o1": sdk.NewCoins(sdk.NewCoin("uc4e", sdk.NewInt(1000)))}})
+		Balances: map[string]sdk.Coins{"payer": sdk.NewCoins(sdk.NewCoin("uc4e", sdk.NewInt(100000)), sdk.NewCoin("stake", sdk.NewInt(100000))), "o1": sdk.NewCoins(sdk.NewCoin("uc4e", sdk.NewInt(1000)))}})
 }
 
 func curEnv(ctx sdk.Context, def *env.Env) *env.Env {
